@@ -37,6 +37,8 @@ def programs(ctx):
                 p.bin('Sub', 2, 1, 4)
                 p.neg(1, 4)
                 p.abs(4, 4)
+                p.round(1, j % 3, 4)                                     # round(q, n) constructs an instance, too
+                p.round(2, (j + 1) % 3 - 1, 4)
                 if t != 'Money':
                     for w in others:
                         p.convert(2, w, 4)                               # conversion
